@@ -113,6 +113,7 @@ struct World {
     maps_checks: u64,
     lifetimes: u64,
     slot_lens: BTreeSet<usize>,
+    under_valgrind: bool,
 }
 
 fn exec_anon_pages() -> BTreeSet<usize> {
@@ -190,6 +191,7 @@ pub fn run(ctx: &Ctx) {
         maps_checks: 0,
         lifetimes: 0,
         slot_lens: BTreeSet::new(),
+        under_valgrind: ctx.get_u("valgrind", 0) == 1,
     };
     // warm-up lifetime so that lazily created process state (thread-local storage, allocator arenas)
     // exists before the baselines are taken
@@ -618,7 +620,8 @@ fn lifetime(w: &mut World, mons: &Mons, p: &Plan, rng: &mut Rng) -> (Verdict, St
                 return (Verdict::Violated, "c12:canary-mapping-vanished".into(), detail.x("canary", ar.base));
             }
         }
-        if w.lifetimes % 64 == 0 || w.lifetimes < 4 {
+        // (under valgrind /proc/self/maps also lists valgrind's own translation caches: skipped there)
+        if !w.under_valgrind && (w.lifetimes % 64 == 0 || w.lifetimes < 4) {
             w.maps_checks += 1;
             let now = exec_anon_pages();
             if now != w.base_exec_anon {
